@@ -107,12 +107,18 @@ fn expr(e: &Expr) -> Value {
       Expr::Repeat(r) => json!({"k":"repeat","e":expr(&r.expr),"len":expr(&r.len)}),
       Expr::Paren(p) => expr(&p.expr),
       Expr::Group(g) => expr(&g.expr),
-      Expr::Block(b) => block(&b.block),
+      Expr::Block(b) => {
+         let mut o = block(&b.block);
+         if let Some(l) = &b.label {
+            o["label"] = Value::String(l.name.to_string());
+         }
+         o
+      },
       Expr::Unsafe(b) => block(&b.block),
       Expr::If(i) => json!({"k":"if","cond":expr(&i.cond),"then":block(&i.then_branch),
          "else": i.else_branch.as_ref().map(|(_, e)| expr(e))}),
       Expr::Let(l) => json!({"k":"let","pat":pat(&l.pat),"e":expr(&l.expr)}),
-      Expr::Loop(l) => json!({"k":"loop","body":block(&l.body),"label":l.label.as_ref().map(|x| toks(x))}),
+      Expr::Loop(l) => json!({"k":"loop","body":block(&l.body),"label":l.label.as_ref().map(|x| x.name.to_string())}),
       Expr::While(w) => json!({"k":"while","cond":expr(&w.cond),"body":block(&w.body)}),
       Expr::ForLoop(f) => json!({"k":"for","pat":pat(&f.pat),"e":expr(&f.expr),"body":block(&f.body)}),
       Expr::Match(m) => json!({"k":"match","e":expr(&m.expr),"arms":m.arms.iter().map(|a| json!({
@@ -121,7 +127,7 @@ fn expr(e: &Expr) -> Value {
          "move": c.capture.is_some()}),
       Expr::Assign(a) => json!({"k":"assign","l":expr(&a.left),"r":expr(&a.right)}),
       Expr::Return(r) => json!({"k":"return","e":r.expr.as_ref().map(|e| expr(e))}),
-      Expr::Break(b) => json!({"k":"break","e":b.expr.as_ref().map(|e| expr(e)),"label":b.label.as_ref().map(|x| toks(x))}),
+      Expr::Break(b) => json!({"k":"break","e":b.expr.as_ref().map(|e| expr(e)),"label":b.label.as_ref().map(|x| x.to_string())}),
       Expr::Continue(_) => json!({"k":"continue"}),
       Expr::Cast(c) => json!({"k":"cast","e":expr(&c.expr),"ty":ty(&c.ty)}),
       Expr::Struct(s) => json!({"k":"struct","path":path_segs(&s.path),
